@@ -434,6 +434,22 @@ def run(case, bct, REC):
             raise
         except Exception:  # noqa
             raised += 1
+    # the same calls from a caller that runs numpy in strict mode (np.seterr(all='raise')): a routine that divides by a
+    # zero strength now raises half-way through -- "returned or raised", the arguments must be as they were
+    strict_raised = 0
+    for label, th in calls:
+        REC.tag(PROP, 'exec')
+        try:
+            with np.errstate(all='raise'):
+                th()
+        except CaseTimeout:
+            raise
+        except FloatingPointError:
+            strict_raised += 1
+        except Exception:  # noqa
+            pass
+    REC.tag(PROP, 'strict_mode_calls', len(calls))
+    REC.tag(PROP, 'strict_mode_calls_raised_floating_point_error', strict_raised)
     REC.tag(PROP, 'calls_returned', returned)
     REC.tag(PROP, 'calls_raised', raised)
     if returned:
